@@ -50,6 +50,10 @@ type Config struct {
 	// de-duplicates its reports), so a replay cannot show it again; its verdict is a function of the
 	// schedule's happens-before relation, not of timing.
 	NoReplayConfirm bool
+	// FairnessK overrides the starvation bound (default 60 consecutive points) for this scenario:
+	// a thread suspended inside a critical window must be able to stay suspended while another one
+	// does a long piece of work (draining 1024 queued tasks), which the default bound cuts short.
+	FairnessK int
 }
 
 // Violation of a scheduler-based check.
@@ -91,6 +95,10 @@ func cloneOut(o *Outcome) {}
 
 // runScenario performs one execution.
 func runScenario(cfg *Config, prefix []PrefixItem, keepTrace bool) (Scenario, *Outcome) {
+	if cfg.FairnessK > 0 {
+		defer func(k int) { FairnessK = k }(FairnessK)
+		FairnessK = cfg.FairnessK
+	}
 	sc := cfg.New()
 	out := RunOnce(prefix, cfg.Horizon, keepTrace, sc.Body)
 	return sc, out
